@@ -9,7 +9,7 @@ use std::sync::Arc;
 
 type EdgeKey = (String, String, u64);
 
-fn canon_list(directed: bool, es: &[&Arc<Edge<String, i32>>]) -> Vec<EdgeKey> {
+fn canon_list<A>(directed: bool, es: &[&Arc<Edge<String, A>>]) -> Vec<EdgeKey> {
     let mut v: Vec<_> = es.iter().map(|e| canon_edge(directed, &e.u, &e.v, e.weight)).collect();
     v.sort();
     v
@@ -43,6 +43,11 @@ pub struct CoherenceStats {
 
 /// `deep`: also query every subset for the `*_for_nodes` family (64 subsets of the universe).
 pub fn coherent(g: &G, m: &Model, q: &[String], deep: bool, out: &mut Outcome) -> CoherenceStats {
+    coherent_with(g, m, q, deep, out, |a| *a)
+}
+
+/// generic over the attribute type: `attr` maps a node's attributes to the model's representation
+pub fn coherent_with<A: Clone + Send + Sync>(g: &graphrs::Graph<String, A>, m: &Model, q: &[String], deep: bool, out: &mut Outcome, attr: impl Fn(&Option<A>) -> Option<i32>) -> CoherenceStats {
     let d = m.spec.directed;
     let multi = m.spec.multi;
     let names = m.names();
@@ -56,7 +61,7 @@ pub fn coherent(g: &G, m: &Model, q: &[String], deep: bool, out: &mut Outcome) -
     out.check(g.number_of_nodes() == names.len(), "number_of_nodes/eq_model/count", || {
         format!("{} vs {}", g.number_of_nodes(), names.len())
     });
-    let gnodes: Vec<(String, Option<i32>)> = g.get_all_nodes().iter().map(|n| (n.name.clone(), n.attributes)).collect();
+    let gnodes: Vec<(String, Option<i32>)> = g.get_all_nodes().iter().map(|n| (n.name.clone(), attr(&n.attributes))).collect();
     out.check(gnodes == m.nodes, "get_all_nodes/eq_model/attributes", || format!("graph {:?} model {:?}", gnodes, m.nodes));
     for x in q {
         calls += 2;
@@ -67,8 +72,8 @@ pub fn coherent(g: &G, m: &Model, q: &[String], deep: bool, out: &mut Outcome) -
         out.check(g.has_node(x) == has, "has_node/eq_model/membership", || format!("has_node({:?}) = {}", x, !has));
         match (g.get_node(x.clone()), m.pos(x)) {
             (Some(n), Some(i)) => {
-                out.check(n.name == *x && n.attributes == m.nodes[i].1, "get_node/eq_model/attributes", || {
-                    format!("get_node({:?}) -> ({:?},{:?}) model {:?}", x, n.name, n.attributes, m.nodes[i])
+                out.check(n.name == *x && attr(&n.attributes) == m.nodes[i].1, "get_node/eq_model/attributes", || {
+                    format!("get_node({:?}) -> ({:?},{:?}) model {:?}", x, n.name, attr(&n.attributes), m.nodes[i])
                 });
             }
             (None, None) => {}
@@ -84,7 +89,8 @@ pub fn coherent(g: &G, m: &Model, q: &[String], deep: bool, out: &mut Outcome) -
 
     // ---- all edges
     calls += 1;
-    let all = graph_edge_multiset(g);
+    let mut all: Vec<EdgeKey> = g.get_all_edges().iter().map(|e| canon_edge(d, &e.u, &e.v, e.weight)).collect();
+    all.sort();
     let want_all = m.edge_multiset();
     out.check(all == want_all, "get_all_edges/eq_model/multiset", || format!("graph {:?} model {:?}", all, want_all));
 
@@ -471,7 +477,7 @@ pub fn coherent(g: &G, m: &Model, q: &[String], deep: bool, out: &mut Outcome) -
 
 /// C03 (white-box): the traversal lists hold exactly the stored neighbours with the minimum stored
 /// weight per pair.
-pub fn traversal_check(g: &G, m: &Model, out: &mut Outcome) {
+pub fn traversal_check<A: Clone + Send + Sync>(g: &graphrs::Graph<String, A>, m: &Model, out: &mut Outcome) {
     let d = m.spec.directed;
     let names = m.names();
     let snap = g.verif_snapshot();
